@@ -194,6 +194,7 @@ def describe(S, path, v, depth=0):
         pay = None
         if v.fields:
             f0 = unbox(S, path, v.fields[0])
-            pay = f0.b if isinstance(f0, Str) else (f0 if isinstance(f0, int) else (repr(f0)[:30] if f0 is not None else None))
+            # payloads the simulator carries exactly; everything else is compared by kind
+            pay = f0 if isinstance(f0, int) else None
         return (v.vname or str(v.variant), pay)
     return ("?", repr(v)[:40])
